@@ -10,6 +10,7 @@ import CookModel.Lemmas.DiagAnalysisMore
 import CookModel.Lemmas.DiagInterRef
 import CookModel.Lemmas.DiagRefChecks
 import CookModel.Lemmas.DiagExact
+import CookModel.Lemmas.ExtLawsEvents
 /-
   C07  Diagnostics are sound, complete and placed on the offending construct.
 
@@ -1246,6 +1247,53 @@ theorem C07_sound_recipe_steps_all_extensions_partial (env : Env)
     (parseRecipe (α := α) { env with ext := e } (render (pre ++ docSpec (stepsDoc doc)))).panic = none := by
   rw [hirr e]
   exact C07_sound_recipe_steps env pre doc hadv hinl hpre hok hsimple hseps hw hfm
+
+/-- **… under EVERY extension set, composed with C02.**  The hypothesis `hirr` of the partial theorem
+    above is discharged by `C02_parse_ext_irrelevant` (Lemmas/ExtLawsEvents `parseRecipe_ext_irrelevant`):
+    it is replaced by C02's own PREMISES, two decidable checks on the printed text — every block of
+    its token stream is `UsesNone` (no modifier character after a marker, no `|` in a name, no `-`
+    in an amount, an amount shape the advanced-units reader declines, every timer has an amount) and
+    its events satisfy `evConvCore` (no step text is empty or holds an inline quantity for the
+    converter; a timer's amount is numeric and its unit a time unit) — and that the character table
+    classifies the ASCII space as whitespace.  Then for a well-formed document of steps (the class of
+    `C07_sound_recipe_steps`, checked against `env` with ADVANCED_UNITS and INLINE_QUANTITIES off)
+    `CooklangParser::parse` reports NO diagnostic, is valid and reaches no panic site under ALL raw
+    extension patterns `e`, the two flags included. -/
+theorem C07_sound_recipe_steps_all_extensions (env : Env) (hws : env.cs.uws ' ' = true)
+    (pre : List Tok) (doc : List (List SegX × List Tok))
+    (hadv : env.ext.has Gen.EXT_ADVANCED_UNITS = false) (hinl : env.ext.has Gen.EXT_INLINE_QUANTITIES = false)
+    (hpre : blankLinesOK pre = true) (hok : ∀ d ∈ doc, (DocItem.step d.1).ok env.cs env.ext = true)
+    (hsimple : ∀ d ∈ doc, d.1.all SegX.simple = true) (hseps : sepsOK (doc.map (·.2)) = true)
+    (hw : WellSpelled env.cs (pre ++ docSpec (stepsDoc doc)))
+    (hfm : parseFrontmatter env.cs (render (pre ++ docSpec (stepsDoc doc))) = none)
+    (hu : UsesNoneInput env.cs (render (pre ++ docSpec (stepsDoc doc))) = true)
+    (hconv : (pullEvents (α := α) env.cs env.ext (render (pre ++ docSpec (stepsDoc doc)))).1.toList.all
+      (evConvCore α env) = true) (e : Ext) :
+    (parseRecipe (α := α) { env with ext := e } (render (pre ++ docSpec (stepsDoc doc)))).diags = #[] ∧
+    (parseRecipe (α := α) { env with ext := e } (render (pre ++ docSpec (stepsDoc doc)))).isValid = true ∧
+    (parseRecipe (α := α) { env with ext := e } (render (pre ++ docSpec (stepsDoc doc)))).panic = none :=
+  C07_sound_recipe_steps_all_extensions_partial env pre doc hadv hinl hpre hok hsimple hseps hw hfm
+    (fun e' => parseRecipe_ext_irrelevant env (keyTestsAgree_of_space env.cs hws) e' _ hu hconv) e
+
+/-! non-vacuity of `C07_sound_recipe_steps_all_extensions`: `Mix @salt{} for ~{10%min}.` with a converter
+    that knows the time unit `min`, every extension off in `env`: all hypotheses hold -/
+def C07_coreEnv : Env :=
+  ⟨toyCharSpec, ⟨0⟩, fun u => if u = ['m','i','n'] then some 0 else none, fun _ _ => .ok, fun c => [c], 0⟩
+def C07_coreDoc : List (List SegX × List Tok) :=
+  [([.text [tk .word "Mix".toList, tk .ws [' ']], .ingredient { name := [tk .word "salt".toList] } {},
+     .text [tk .ws [' '], tk .word "for".toList, tk .ws [' ']], .timer C01_exTimerAnon {},
+     .text [tk .dot ['.']]], [C01_nl])]
+example : render (docSpec (stepsDoc C07_coreDoc)) = "Mix @salt{} for ~{10%min}.\n".toList := by decide
+example : C07_coreEnv.cs.uws ' ' = true := by decide
+example : C07_coreEnv.ext.has Gen.EXT_ADVANCED_UNITS = false ∧ C07_coreEnv.ext.has Gen.EXT_INLINE_QUANTITIES = false ∧
+    (∀ d ∈ C07_coreDoc, (DocItem.step d.1).ok C07_coreEnv.cs C07_coreEnv.ext = true) ∧
+    (∀ d ∈ C07_coreDoc, d.1.all SegX.simple = true) ∧ sepsOK (C07_coreDoc.map (·.2)) = true := by decide
+example : WellSpelled toyCharSpec (docSpec (stepsDoc C07_coreDoc)) := by decide
+example : parseFrontmatter toyCharSpec (render (docSpec (stepsDoc C07_coreDoc))) = none := by decide
+example : UsesNoneInput C07_coreEnv.cs (render ([] ++ docSpec (stepsDoc C07_coreDoc))) = true := by decide +kernel
+example : (pullEvents (α := Rat) C07_coreEnv.cs C07_coreEnv.ext
+    (render ([] ++ docSpec (stepsDoc C07_coreDoc)))).1.toList.all (evConvCore Rat C07_coreEnv) = true := by
+  decide +kernel
 
 /-! non-vacuity: the example recipe of C01 (`Add @salt{=1%tsp} to the #pot{}` / `~{10%min} wait`) and the
     example document of `C01_recipe_steps` satisfy the hypotheses (shown in Props/C01.lean); the
